@@ -14,6 +14,7 @@ import (
 	"os"
 	"path/filepath"
 	"reflect"
+	"runtime"
 	"sort"
 	"strings"
 	"sync"
@@ -44,20 +45,21 @@ type call struct {
 }
 
 type shared struct {
-	bm, bm2    []uint64
-	bmFull     []uint64
-	r64, r128  []int32
+	bm, bm2           []uint64
+	bmFull            []uint64
+	r64, r128         []int32
 	sidx, sidx2, ridx []int32
-	keys       []string
-	sb         *sigbits.SigBits
-	plainA     [][]byte
-	strA       []string
-	enc        [][]byte
-	paths      []uint64
-	masks      []int32
-	decBM      [][]uint64
-	decFull    [][]uint64
-	vals       []uint64
+	keys              []string
+	sb                *sigbits.SigBits
+	plainA            [][]byte
+	plainBase         [][]byte // per plainFull entry: the longest view handed out (everything behind it is neighbour memory)
+	strA              []string
+	enc               [][]byte
+	paths             []uint64
+	masks             []int32
+	decBM             [][]uint64
+	decFull           [][]uint64
+	vals              []uint64
 	// byte-slice arguments are views of larger shared arrays whose full contents are in every snapshot
 	plainFull [][]byte
 	wordsFull []byte // n-bit words (values < 2) for bitword.ToStr: prefixes of every length are passed
@@ -74,7 +76,8 @@ func mkShared(r *rand.Rand) *shared {
 	s.bmFull = patWords(r, 6+r.Intn(4)+2, 0.1)
 	s.bm = s.bmFull[:len(s.bmFull)-2] // a view: two more words with 1-bits lie behind it
 	s.bmFull[len(s.bm)] |= 1 | 1<<63
-	s.bm[0] |= 0x8000000000000421 // bits around the edges of word 0
+	s.bmFull[len(s.bm)+1] |= 1      // (bit 0 of every neighbour word / byte is set: the neighbour writer stores x|1 = x)
+	s.bm[0] |= 0x8000000000000421   // bits around the edges of word 0
 	s.bm[1] |= 1<<63 | 1<<3 | 1<<36 // 1-bits after any unaligned slice end inside word 1
 	s.bm2 = patWords(r, 3, 0)
 	s.r64 = bitmap.IndexRank64(s.bm, true)
@@ -94,10 +97,16 @@ func mkShared(r *rand.Rand) *shared {
 		if r.Intn(2) == 0 {
 			a = append(a, bsString(r, r.Intn(4))...)
 		}
-		full := append(append([]byte{}, a...), 0xff, 0x81, 0x7e) // the view's neighbours are non-zero
+		full := append(append([]byte{}, a...), 0xff, 0x81, 0x7f, 0xff, 0xff, 0xff, 0xff, 0xff, 0xff, 0xff, 0xff, 0xff, 0xff) // the view's neighbours are non-zero
 		s.plainFull = append(s.plainFull, full)
+		s.plainBase = append(s.plainBase, full[:len(a)])
 		s.plainA = append(s.plainA, full[:len(a)])
 		s.strA = append(s.strA, string(append([]byte{}, a...))) // heap strings
+		if i%2 == 0 {                                           // the empty key and a short byte-prefix of the encoded string, as views with plenty of memory behind them
+			k := r.Intn(4)
+			s.plainA = append(s.plainA, full[:0], full[:k])
+			s.strA = append(s.strA, "", string(append([]byte{}, a[:k]...)))
+		}
 	}
 	for _, h := range []int{3, 5, 8, 9, 12} {
 		top := int32(1) << uint(h)
@@ -253,7 +262,9 @@ func (s *shared) calls() []call {
 			}
 			return r
 		}},
-		{"SliceAligned", func() interface{} { return [][]uint64{bitmap.Slice(s.bm, 64, 67), bitmap.Slice(s.bm, 0, 5), bitmap.Slice(s.bm, 64, 64+36)} }},
+		{"SliceAligned", func() interface{} {
+			return [][]uint64{bitmap.Slice(s.bm, 64, 67), bitmap.Slice(s.bm, 0, 5), bitmap.Slice(s.bm, 64, 64+36)}
+		}},
 		{"SliceSeeded", func() interface{} {
 			var r [][]uint64
 			for _, a := range s.sliceArgs {
@@ -563,8 +574,35 @@ func execConc(in In, em *Emitter) {
 			}
 		}(g)
 	}
+	// One more goroutine keeps storing (unchanged values) into the memory BEHIND the shared views while the readers
+	// run: a reader that looks beyond the length of its argument conflicts with it, which the race detector reports.
+	stop := make(chan struct{})
+	var nwg sync.WaitGroup
+	nwg.Add(1)
+	go func() {
+		defer nwg.Done()
+		<-start
+		for {
+			select {
+			case <-stop:
+				return
+			default:
+			}
+			for i := len(s.bm); i < len(s.bmFull); i++ {
+				s.bmFull[i] = s.bmFull[i] | 1
+			}
+			for i, full := range s.plainFull {
+				for j := len(s.plainBase[i]); j < len(full); j++ {
+					full[j] |= 0x01
+				}
+			}
+			runtime.Gosched()
+		}
+	}()
 	close(start)
 	wg.Wait()
+	close(stop)
+	nwg.Wait()
 	// merge the per-goroutine logs (any merge respecting each goroutine's order is valid: readers commute)
 	for i := 0; ; i++ {
 		any := false
